@@ -108,7 +108,8 @@ PROPS["C06"] = {
     "level": "proof",
     "verus": {},
     "assumptions": [
-        "create_table_with_name calls Column::is_storable() for every column and writes Column::bitfield() into _Columns.Type; Package::open passes that word to with_bitfield (call sites are cfb code, not covered)",
+        "group mktable: Package::create_table_with_name refuses, before touching the package, every definition with a column that is_storable() rejects (string width above 255) -- proved on the real checks of the function (its body up to the existence check; the rest is an unconstrained continuation, rule X14)",
+        "that create_table_with_name writes Column::bitfield() into _Columns.Type and that Package::open passes that word to with_bitfield are call sites in cfb-level code, NOT covered",
         "the _Validation row construction / re-derivation (ranges, enumerations joined by ';', key annotations) is NOT covered",
     ],
 }
@@ -183,6 +184,7 @@ PROPS["C08"]["verus"]["serial"] = SERIAL_FNS
 PROPS["C10"]["verus"]["readers"] = ["vx_read_whole", "SummaryInfo::read", "PropertySet::format_identifier", "PropertyValue::read", "PropertySet::read", "PropertyValue::minimum_version", "Timestamp::read_from",
                                     "lemma_pv_pair", "lemma_pv_pair_small", "lemma_pv_pair_i1", "lemma_pv_pair_i2", "lemma_pv_pair_str", "lemma_lpstr_layout", "lemma_pv_pair_time", "lemma_le32_rt", "lemma_le16_rt", "lemma_u64_halves", "lemma_i16_rt", "lemma_i32_rt", "lemma_i8_rt"]
 PROPS["C19"]["verus"]["queryfmt"] = ["Delete::fmt", "Insert::fmt", "Update::fmt", "Join::fmt", "Select::format_for_join", "Select::fmt"]
+PROPS["C06"]["verus"]["mktable"] = ["Package::create_table_with_name", "Column::is_storable"]
 PROPS["C07"]["verus"]["category"] = ["Category::validate", "lemma_blen_nonneg", "lemma_blen_empty", "lemma_blen_ends", "lemma_last_of"]
 PROPS["C10"]["verus"]["propset"] = SUMMARY_FNS + ["lemma_in_step_set_codepage", "lemma_in_step_insert", "lemma_in_step_remove",
                                               "PropertySet::new", "SummaryInfo::new", "SummaryInfo::uuid", "SummaryInfo::set_uuid", "SummaryInfo::clear_uuid", "lemma_uuid_after_set"]
@@ -249,13 +251,15 @@ PROPS["C20"] = {
               "rows": ["Table::read_rows"],
               "readers": ["StringRef::read"],
               "streamname": ["is_valid"],
-              "poolcap": ["ValueRef::create"]},
+              "poolcap": ["ValueRef::create"],
+              "mktable": ["Package::create_table_with_name", "Column::is_storable", "Column::is_primary_key", "Column::name"]},
     "probes": {"ValueRef::create": ["poolcap"], "Table::write_rows": ["rowlimit"]},
     "slow_probes": True,
     "assumptions": [
         "decided, limit by limit, on the functions that enforce (or must enforce) it: ROWS -- Table::read_rows accepts exactly the streams of at most 65536 rows and Table::write_rows returns Ok only for at most 65536 rows (symmetric since fix 'row limit'); STRING REFERENCES -- StringRef::write refuses a reference above 16 bits in two-byte mode (error, not truncation) and StringRef::read accepts every two- or three-byte reference; COLUMN WIDTH -- kani:typeword_roundtrip: exactly the widths above 255 are refused by is_storable; STREAM NAMES -- streamname::is_valid == the statement's `accepted` (31 UTF-16 units after encoding)",
         "ValueRef::create is checked under a contract WITHOUT a capacity precondition (group poolcap): the obligation 'incref's capacity precondition holds at its call site' fails -- a listed KNOWN FINDING (the library panics instead of returning an error when the 65,536th distinct string is interned with two-byte references; changing incref to return an error would change a signature the repository's own unit tests pin)",
-        "NOT covered: the 32-column check in create_table, catalog-name width limits (64/32 characters), 'leaves the package unchanged' after a refused call (C04), that Insert::exec refuses early (the fix adds that check, but Insert::exec is outside the verified set), everything cfb-level",
+        "COLUMNS -- group mktable: the checks of Package::create_table_with_name, i.e. the real body up to (excluding) `if self.tables.contains_key(..)`; everything after it (catalog rows, the new table) is replaced by an UNCONSTRAINED continuation (rule X14, logged with the number of lines dropped). Proved: a definition with more than 32 columns, no column, no primary key, an invalid table or column name, or a column the type word cannot hold (string width above 255) is refused with an error BEFORE the package is touched (package unchanged); and a definition within the limits with distinct column names passes every check (its result is the continuation's). Trusted: Table::is_valid_name / Column::is_valid_name as functions of the text (groups category, streamname), columns.iter().any(Column::is_primary_key) and the local HashSet<&str> as a set of texts (shims in the template)",
+        "NOT covered: catalog-name width limits (64/32 characters), 'leaves the package unchanged' after a refused call (C04), that Insert::exec refuses early (the fix adds that check, but Insert::exec is outside the verified set), everything cfb-level",
     ],
 }
 
